@@ -9,7 +9,7 @@ ASSUMPTIONS = ["before the zone's first recorded transition the offset is that o
                "local<->UTC round trip: consecutive transitions of a zone are at least 48 h apart (true of every installed zone; checked natively by setup)"]
 def ob(name, defs, **kw):
     o = dict(name=name, src='h_tz.c', defs=defs, units=[], incl=['src/tzraw.c'], replay_units='all', unwind=6,
-             unwindset={'__find_trno.*': 5, 'zif_utc_time.*': 5}, solver='cadical', timeout=600, mem_gb=8,
+             unwindset={'__find_trno.*': 5, 'zif_utc_time.*': 5}, solver='minisat', slice_formula=True, timeout=600, mem_gb=8,
              checks=['--bounds-check', '--pointer-check', '--signed-overflow-check'], termination=True, hang_s=10,
              sym='the zone (transitions, type map, offsets) and the looked-up instants')
     o.update(kw)
